@@ -640,6 +640,27 @@ fn gen_byz(seed: u64, prop: &str) -> Plan {
         }
         add(&mut b.plan, at, Action::User(UserOp::SetScripts { cmd: SetCmd::All, scripts }));
     }
+    let mut main_branch = 0usize;
+    if prop == "C01" && b.rng.chance(1, 2) {
+        // a shallow reorg, so that proofs with a reorg section are asked for and mutated
+        let back = b.rng.range(1, b.plan.knobs.last_n.min(8).max(1));
+        let n = back + b.rng.range(1, 4);
+        if b.plan.knobs.check_point_interval <= 2 * back + 2 {
+            b.plan.knobs.check_point_interval = 2000;
+        }
+        let t = b.rng.range(15_000, until.max(16_000));
+        add(&mut b.plan, t, Action::Fork { src: 0, back, n });
+        for p in 0..np {
+            let at = t + b.rng.range(1, 20_000);
+            add(&mut b.plan, at, Action::SwitchBranch { peer: p, branch: 1 });
+        }
+        let mut tm = t + b.rng.range(10_000, 30_000);
+        while tm < until + 30_000 {
+            add(&mut b.plan, tm, Action::Mine { branch: 1, n: 1 });
+            tm += b.rng.range(15_000, 40_000);
+        }
+        main_branch = 1;
+    }
     if prop == "C02" && b.rng.chance(1, 2) {
         // a stale side branch nobody follows; the user asks for its blocks / transactions, and a
         // deviating peer may answer "as seen from" that branch
@@ -684,6 +705,10 @@ fn gen_byz(seed: u64, prop: &str) -> Plan {
         add(&mut b.plan, b.rng.range(5_000, until), Action::Restart);
     }
     b.plan.flags = vec!["byz".into(), format!("byz_{}", prop)];
+    if main_branch != 0 {
+        b.plan.flags.push(format!("main={}", main_branch));
+        b.plan.flags.push("fork".into());
+    }
     if prop == "C06" {
         // some peers serve one check-point interval of tampered filters with consistent hashes
         // - exactly one such peer, at least two honest-vector peers and a quorum of two, so that
@@ -729,6 +754,16 @@ fn gen_c07(seed: u64) -> Plan {
     }
     let until = b.rng.range(60_000, 250_000);
     growth(&mut b, until);
+    // the chain crosses several check-point intervals while the run goes on, so that check
+    // points are finalized round after round
+    if b.rng.chance(2, 3) {
+        let mut t = b.rng.range(10_000, 40_000);
+        let i = b.plan.knobs.check_point_interval;
+        while t < until {
+            add(&mut b.plan, t, Action::Mine { branch: 0, n: b.rng.range(i / 2, 3 * i) });
+            t += b.rng.range(15_000, 50_000);
+        }
+    }
     // churn
     for _ in 0..b.rng.range(0, 6) {
         let at = b.rng.range(5_000, until);
